@@ -8,7 +8,9 @@ package claim
 import (
 	"context"
 
+	"k8s.io/apimachinery/pkg/runtime"
 	"k8s.io/apimachinery/pkg/types"
+	"sigs.k8s.io/controller-runtime/pkg/client"
 	"sigs.k8s.io/controller-runtime/pkg/reconcile"
 
 	xpv1 "github.com/crossplane/crossplane-runtime/apis/common/v1"
@@ -21,11 +23,26 @@ import (
 	"github.com/crossplane/crossplane/internal/zzverif/kube"
 )
 
+// zzLagXR is a client whose reads of the XR come from a cache that still
+// holds a copy of an object the API server has deleted.
+type zzLagXR struct {
+	*kube.Store
+	cached map[string]any
+}
+
+func (c *zzLagXR) Get(ctx context.Context, key client.ObjectKey, obj client.Object, opts ...client.GetOption) error {
+	if c.cached != nil && obj.GetObjectKind().GroupVersionKind().Kind == "XR" {
+		obj.(runtime.Unstructured).SetUnstructuredContent(runtime.DeepCopyJSON(c.cached))
+		return nil
+	}
+	return c.Store.Get(ctx, key, obj, opts...)
+}
+
 // HarnessC05Claim: a claim is reported Ready=True only by a reconcile that
 // observed its bound XR Ready=True.
 //
 //gosym:harness
-//gosym:cover claim-ready claim-waiting
+//gosym:cover claim-ready claim-waiting xr-gone-behind-the-cache
 func HarnessC05Claim() {
 	s := kube.New()
 	cm := claim.New(claim.WithGroupVersionKind(zzClaimGVK))
@@ -68,20 +85,54 @@ func HarnessC05Claim() {
 	}
 	s.Put(xr)
 
+	// the XR may have been deleted since the cache last saw it: the
+	// reconciler reads the cached copy, the API server no longer has the object
+	c := &zzLagXR{Store: s}
+	gone := zz.Bool("xr.deletedBehindTheCache")
+	if gone {
+		zz.Cover("xr-gone-behind-the-cache")
+		c.cached = runtime.DeepCopyJSON(s.Doc("example.org", "XR", "", "xr-1"))
+		del := composite.New(composite.WithGroupVersionKind(zzXRGVK))
+		del.SetName("xr-1")
+		_ = s.Delete(context.Background(), del)
+	}
+
 	opts := []ReconcilerOption{}
 	if zz.Bool("syncer.ssa") {
-		opts = append(opts, WithCompositeSyncer(NewServerSideCompositeSyncer(s, names.NewNameGenerator(s))))
+		opts = append(opts, WithCompositeSyncer(NewServerSideCompositeSyncer(c, names.NewNameGenerator(c))))
 	}
-	r := NewReconciler(s, resource.CompositeClaimKind(zzClaimGVK), resource.CompositeKind(zzXRGVK), opts...)
+	r := NewReconciler(c, resource.CompositeClaimKind(zzClaimGVK), resource.CompositeKind(zzXRGVK), opts...)
 	_, err := r.Reconcile(context.Background(), reconcile.Request{NamespacedName: types.NamespacedName{Namespace: "team", Name: "cm"}})
-	zz.Assert("claim-reconcile-no-error", err == nil)
+	if !gone {
+		zz.Assert("claim-reconcile-no-error", err == nil)
+	}
+	if err != nil {
+		return
+	}
 
 	after := claim.New(claim.WithGroupVersionKind(zzClaimGVK))
 	s.Peek("team", "cm", after)
 	ready := after.GetCondition(xpv1.TypeReady)
+	if gone && after.GetCondition(xpv1.TypeSynced).Status != "True" {
+		// the reconcile failed before it judged readiness (recorded as a
+		// ReconcileError): whatever Ready shows was reported earlier
+		return
+	}
 	if ready.Status == "True" {
 		zz.Cover("claim-ready")
 		zz.Assert("claim-ready-only-if-bound-xr-observed-ready", xrReady == 1)
+		// what the reconcile observed is what the API server answered its
+		// write with, not what the cache showed before it
+		wrote := false
+		for _, w := range s.Writes(false) {
+			if w.Kind == "XR" && w.Effect && w.Verb != kube.VerbDelete {
+				wrote = true
+			}
+		}
+		if wrote {
+			now := composite.New(composite.WithGroupVersionKind(zzXRGVK))
+			zz.Assert("claim-ready-only-if-the-xr-it-wrote-is-ready", s.Peek("", "xr-1", now) && now.GetCondition(xpv1.TypeReady).Status == "True")
+		}
 	} else {
 		zz.Cover("claim-waiting")
 	}
